@@ -126,7 +126,14 @@ def causeBin : Nat → UInt8 → Bytes → CRes
   | 0, _, b => if b.length = 0 then .error .truncated else .error .depth
   | d+1, t, b => if b.length = 0 then .error .truncated else causeLayer (causeElem (causeBin d)) t b
 
-/-- Stream flavour, for BufferReader.Skip (used by the Tie B verdict of the `cause` family).
+/-- a struct field value as a stream skipper reads it: fixed-size in line, everything else — a string
+    too — is a nested value -/
+def causeField (f : UInt8 → Bytes → CRes) (t : UInt8) (b : Bytes) : CRes :=
+  if fixedSize t > 0 then (if fixedSize t ≤ b.length then .ok (fixedSize t) else .error .truncated)
+  else f t b
+
+/-- Stream flavour, for BufferReader.Skip (Tie B verdict of the `cause` family; refined by the model
+    over live readers, Lemmas/SkipBRCause.lean).
     A stream reader asks its source for bytes only when a header or a scalar is actually read, so on
     entering a nested value the remaining depth and the type code are judged before any byte of the
     value is requested — there is no "nothing left" check ahead of them; and a struct field that is
@@ -135,10 +142,7 @@ def causeBin : Nat → UInt8 → Bytes → CRes
 def causeStream : Nat → UInt8 → Bytes → CRes
   | 0, _, _ => .error .depth
   | d+1, t, b =>
-    if t = TT.STRUCT then
-      causeFields (fun ft bb =>
-        if fixedSize ft > 0 then (if fixedSize ft ≤ bb.length then .ok (fixedSize ft) else .error .truncated)
-        else causeStream d ft bb) (b.length + 1) b
+    if t = TT.STRUCT then causeFields (causeField (causeStream d)) (b.length + 1) b
     else causeLayer (causeElem (causeStream d)) t b
 
 end Verif
